@@ -27,7 +27,7 @@ COMPONENTS = {'real': ['enspara.cluster.kmedoids (_kmedoids_pam_update, proposer
 ASSUMPTIONS = ['cost comparisons allow 4*n ulp (the library and the model may sum in different orders; under MPI the '
                'reduction order is legitimately free)', 'explicit proposals are members of the cluster being updated',
                'zero sweeps are requested through k-hybrid, which supports it, not through kmedoids(n_iters=0)']
-REACH_EXPECTED = ['proposal_accepted', 'proposal_rejected', 'mpi_run', 'random_sweep', 'hybrid_cost_sequence',
+REACH_EXPECTED = ['per_rank_generators', 'proposal_accepted', 'proposal_rejected', 'mpi_run', 'random_sweep', 'hybrid_cost_sequence',
                   'reproducibility_checked', 'reproducible_across_poison', 'warm_centres_only', 'warm_labels_only',
                   'cold_start_sequence', 'empty_cluster_share_on_rank']
 
@@ -96,6 +96,9 @@ def scenario(ctx):
             use_random = t.flag(1, 3)
             if use_random:
                 extra = dict(random_state=t.draw(1000))
+                if mpi and t.flag():
+                    extra['per_rank_rng'] = True
+                    ctx.hit('per_rank_generators')
                 ctx.hit('random_sweep')
                 hist.append(('random', extra['random_state']))
             else:
@@ -138,11 +141,14 @@ def scenario(ctx):
         rseed = t.draw(1000)
         T = t.irange(1, 5)
         form = 'estimator' if t.flag(1, 4) else 'function'
+        prr = mpi and form == 'function' and t.flag()
+        if prr:
+            ctx.hit('per_rank_generators')
         costs = []
         mcosts = []
         K0 = None
         for it in range(0, T + 1):
-            g = run(dict(algo='hybrid', form=form, k=k, cutoff=cutoff, n_iters=it, random_state=rseed), suffix=str(it))
+            g = run(dict(algo='hybrid', form=form, k=k, cutoff=cutoff, n_iters=it, random_state=rseed, per_rank_rng=prr), suffix=str(it))
             centres_are_frames(P, g, 'k-hybrid n_iters=%d:' % it)
             if K0 is None:
                 K0 = len(g.ci)
